@@ -20,6 +20,10 @@ def gen(rng, tier):
             cases.append(["secure %s honest %s" % (mech, ";".join(str(s) for s in sizes))])
         for _ in range(1 * n):
             cases.append(["secure %s honest 50;50;50;50;50;50 hb=%d" % (mech, rng.choice([100, 150, 250]))])
+        # heartbeats while the sender's session holds a backlog of sealed records (its reader pauses): the PONGs, sealed later,
+        # must not get in front of them
+        for _ in range(1 * n):
+            cases.append(["secure %s backlog %d %d hb=%d" % (mech, rng.choice([1500, 3000]), rng.choice([4096, 8192]), rng.choice([60, 100]))])
         for _ in range(8 * n):
             kind = rng.choice(["flip", "flip", "drop", "dup", "swap", "cut"])
             r = rng.randrange(0, 5)
@@ -36,6 +40,9 @@ def dist(cases):
     d = {"cases": len(cases), "honest": 0, "heartbeat": 0, "tamper": {}, "twice": 0, "max_size": 0}
     for c in cases:
         p = c[0].split(" ")
+        if p[2] == "backlog":
+            d["heartbeat"] += 1
+            continue
         if p[2] == "honest":
             d["honest"] += 1
             d["heartbeat"] += len(p) > 4
